@@ -194,16 +194,24 @@ pub fn check(tier: Tier) -> i32 {
 		eprintln!("C11: vacuous exploration (pointer reads {reads}, files removed {removed})");
 		return 2;
 	}
+	// --- crash part: power-loss / process-crash images of value-log workloads ---
+	let code = crate::props::crash::run_into(&mut report, "C11", tier, if tier == Tier::Quick { 14.0 } else { 600.0 });
+	if code != 0 {
+		return code;
+	}
+	let crash_evals = report.coverage.get("evaluations").and_then(|v| v.as_u64()).unwrap_or(0);
+	report.set("crash_image_evaluations", json!(crash_evals));
 	report.set("history_evaluations", json!(hist_evals));
-	report.set("evaluations", json!(stats.evaluations));
+	report.set("evaluations", json!(stats.evaluations + hist_evals + crash_evals));
 	report.set("states", json!(stats.states.len().max(1)));
 	report.set("transitions", json!(stats.transitions.max(1)));
 	report.set("traces_validated_against_impl", json!(stats.evaluations));
 	report.set("distinct_nontrivial", json!(stats.nontrivial.len()));
-	report.set("rule", json!("world sequences of two grammars: (1) commits of {set a, set b, delete a} x value sizes {0,7,8,9,200} with flush/compaction/reopen and one reader, (2) commits of {set a, delete a} x sizes {9,200} with flush/compaction and up to two readers with open cursors held across them; a sequence must contain a Begin followed by activity; non-trivial = some physical op changed the level shape; distinct by op list"));
+	report.set("rule", json!("three parts, see bounds_completed / crash_rule. world sequences of two grammars: (1) commits of {set a, set b, delete a} x value sizes {0,7,8,9,200} with flush/compaction/reopen and one reader, (2) commits of {set a, delete a} x sizes {9,200} with flush/compaction and up to two readers with open cursors held across them; a sequence must contain a Begin followed by activity; non-trivial = some physical op changed the level shape; distinct by op list"));
 	report.set("samples", json!(samples));
 	report.set("bounds_completed", json!(completed));
-	report.set("exhaustive", json!(all_complete));
+	let crash_ex = report.coverage.get("exhaustive").and_then(|v| v.as_bool()).unwrap_or(true);
+	report.set("exhaustive", json!(all_complete && crash_ex));
 	report.set("failures_per_class", json!(stats.per_class));
 	report.assume("value-log file size 64 bytes: every flush of a value >= 9 bytes rotates the log; threshold 8 (or 0 with versioning)");
 	report.finish()
